@@ -241,10 +241,11 @@ def _symbolic_comp(ex, st, e, kind, g, it):
     raise _U("comprehension kind", e)
 
 
-def _stores(a):
-    """(base array, [(index, value), ...]) of a nest of stores"""
+def _stores(a, stop=None):
+    """(base array, [(index, value), ...]) of a nest of stores; peeling stops at `stop` (the array of the state before - it may itself be a store nest:
+    objects allocated / fields written before the comprehension)"""
     out = []
-    while z3.is_app(a) and a.decl().kind() == z3.Z3_OP_STORE:
+    while z3.is_app(a) and a.decl().kind() == z3.Z3_OP_STORE and not (stop is not None and a.eq(stop)):
         out.append((a.arg(1), a.arg(2)))
         a = a.arg(0)
     return a, out[::-1]
@@ -255,7 +256,7 @@ def _lift_allocating_body(ex, st, sk, alloc0, heap0, n_pc, n0, i, rng, guards, n
     In the state `st` after the comprehension: each such object is a function NEW(i) of the element index (not allocated before, pairwise
     distinct, allocated afterwards), every heap field differs from its old value only at these objects, where it holds the value the body
     stored (as a function of i).  Heap writes to any other object are not supported."""
-    base, allocs = _stores(sk.alloc)
+    base, allocs = _stores(sk.alloc, alloc0)
     if not base.eq(alloc0):
         raise _U("comprehension body: allocation state cannot be related to the state before the comprehension", node)
     fresh = [idx for idx, _ in allocs]
@@ -280,7 +281,7 @@ def _lift_allocating_body(ex, st, sk, alloc0, heap0, n_pc, n0, i, rng, guards, n
         a0 = heap0.get(k)
         if a0 is not None and a0.eq(a1):
             continue
-        b, sts = _stores(a1)
+        b, sts = _stores(a1, a0)
         if a0 is None:
             a0 = b                         # the field was first touched inside the body: its initial array
         if not b.eq(a0):
